@@ -101,6 +101,27 @@ fn style_bytes(style: u8, raw: Vec<u8>) -> Vec<u8> {
 }
 
 pub fn img(cfg: ImgCfg) -> BoxedStrategy<Img> {
+    if cfg.large {
+        // ~4% frames of 22 KB - 540 KB with incompressible content (buffer limits of codecs)
+        let big = (150u16..=300, 150u16..=300, prop_oneof![Just(8u16), Just(16u16)], prop_oneof![Just(1u16), Just(3u16)], 1u32..=2, any::<bool>(), any::<u64>()).prop_map(|(rows, cols, bits_alloc, samples, frames, signed, seed)| {
+            let n = Img::stored_len(rows, cols, samples, bits_alloc, frames);
+            let mut x = seed | 1;
+            let data = (0..n)
+                .map(|_| {
+                    x ^= x << 13;
+                    x ^= x >> 7;
+                    x ^= x << 17;
+                    (x >> 24) as u8
+                })
+                .collect();
+            Img { rows, cols, samples, bits_alloc, bits_stored: bits_alloc, signed, frames, data, frames_attr: true, mono1: false }
+        });
+        return prop_oneof![24 => img_small(cfg), 1 => big.boxed()].boxed();
+    }
+    img_small(cfg)
+}
+
+fn img_small(cfg: ImgCfg) -> BoxedStrategy<Img> {
     let bits = if cfg.one_bit { prop_oneof![2 => Just(1u16), 3 => Just(8u16), 3 => Just(16u16)].boxed() } else { prop_oneof![Just(8u16), Just(16u16)].boxed() };
     (dim(cfg.large), dim(cfg.large), bits, prop_oneof![2 => Just(1u16), 1 => Just(3u16)], 1u32..=cfg.max_frames, any::<bool>(), any::<bool>(), any::<bool>(), 0u16..16, any::<u8>())
         .prop_flat_map(|(rows, cols, bits_alloc, samples, frames, signed, frames_attr, mono1, stored_sel, style)| {
